@@ -23,3 +23,16 @@ bool drv_typed_await_resume(suspend_point<bool> *a) { return a->await_resume(); 
 void drv_typed_int_from(suspend_point<int> *out, suspend_point<void> *src, int v) { new(out) suspend_point<int>(std::move(*src), v); }
 int drv_typed_int_get(suspend_point<int> *a) { return *a; }
 }
+// a value type whose move differs from its copy: "the value attached to a typed suspend point is the one its producer supplied" - reading it does not consume it
+// (seeded change C06-6: operator X() returning std::move(value))
+struct c06_mv { int payload; int moved_from;
+    c06_mv(int p = 0) : payload(p), moved_from(0) {}
+    c06_mv(const c06_mv &o) : payload(o.payload), moved_from(0) {}
+    c06_mv(c06_mv &&o) : payload(o.payload), moved_from(0) { o.payload = -1; o.moved_from = 1; }
+    c06_mv &operator=(const c06_mv &o) { payload = o.payload; moved_from = 0; return *this; }
+    c06_mv &operator=(c06_mv &&o) { payload = o.payload; moved_from = 0; o.payload = -1; o.moved_from = 1; return *this; } };
+extern "C" {
+void drv_typed_mv_get(c06_mv *out, suspend_point<c06_mv> *a) { new(out) c06_mv(a->operator c06_mv()); }
+void drv_typed_mv_cget(c06_mv *out, const suspend_point<c06_mv> *a) { new(out) c06_mv(a->operator const c06_mv()); }
+c06_mv *drv_typed_mv_await_resume(suspend_point<c06_mv> *a) { return &a->await_resume(); }
+}
